@@ -41,6 +41,8 @@ Proof.
       * cbn [admissible] in Hadm.
         assert (Hr' : sp_offer_lazy c st (unext (wuw w)) v None vid idx = Some r) by (destruct a; exact Hr).
         exact (exec_offer_lazy c w st a v None depth vid idx r Hwf HW Hfuse Hadm Hr').
+      * destruct a; [|discriminate]. cbn [admissible] in Hadm. cbn [exec].
+        exact (exec_offer_temp c w st v None vid k idx r Hwf HW Hfuse Hadm Hr).
   - (* OInsert *)
     destruct (fresh_src s) eqn:Hs.
     + cbn [admissible] in Hadm. exact (exec_offer c w st a v s (Some idx) Hwf HW Hfuse Hs Hadm r Hr).
@@ -50,6 +52,8 @@ Proof.
       * cbn [admissible] in Hadm.
         assert (Hr' : sp_offer_lazy c st (unext (wuw w)) v (Some idx) vid idx0 = Some r) by (destruct a; exact Hr).
         exact (exec_offer_lazy c w st a v (Some idx) depth vid idx0 r Hwf HW Hfuse Hadm Hr').
+      * destruct a; [|discriminate]. cbn [admissible] in Hadm. cbn [exec].
+        exact (exec_offer_temp c w st v (Some idx) vid k idx0 r Hwf HW Hfuse Hadm Hr).
   - (* OPop *)
     cbn [admissible] in Hadm.
     exact (exec_take c w st a v TPop 0 k r Hwf HW Hfuse (fun _ => eq_refl) Hadm Hr).
@@ -204,6 +208,12 @@ Lemma sp_offer_wrong_nx c st nx v k r : sp_offer_wrong c st nx v k = Some r -> n
 Proof. unfold sp_offer_wrong. intros H. crush H; cbn; split; lia. Qed.
 Lemma sp_offer_lazy_nx c st nx v i src sidx r : sp_offer_lazy c st nx v i src sidx = Some r -> nx <= s_nx r /\ s_out r < 100.
 Proof. unfold sp_offer_lazy. cbv zeta. intros H. crush H; cbn; split; lia. Qed.
+Lemma sp_offer_temp_nx c st nx v i src k sidx r : sp_offer_temp c st nx v i src k sidx = Some r -> nx <= s_nx r /\ s_out r < 100.
+Proof.
+  unfold sp_offer_temp. intros H.
+  destruct (sp_take c st nx src k (match k with TPop => 0 | _ => sidx end) (match i with None => KPush v | Some j => KIns v j end)) as [r0|] eqn:E0; [|discriminate].
+  apply sp_take_nx in E0. injection H as <-. destruct (s_out r0 =? 1); cbn [panic_res s_nx s_out]; lia.
+Qed.
 Lemma sp_new_nx c st nx dst bk r : sp_new c st nx dst bk = Some r -> nx <= s_nx r /\ s_out r < 100.
 Proof. unfold sp_new. intros H. crush H; cbn; split; lia. Qed.
 Lemma sp_clone_nx c st nx v dst r : sp_clone c st nx v dst = Some r -> nx <= s_nx r /\ s_out r < 100.
@@ -222,7 +232,8 @@ Proof.
          destruct s; try (destruct a; discriminate);
          [destruct a; [|discriminate]; apply sp_offer_wrong_nx in H; exact H
          |destruct a; [|discriminate]; apply sp_offer_wrong_nx in H; exact H
-         |destruct a; apply sp_offer_lazy_nx in H; exact H]);
+         |destruct a; apply sp_offer_lazy_nx in H; exact H
+         |destruct a; [|discriminate]; apply sp_offer_temp_nx in H; exact H]);
     try (destruct (resizable bk); [apply sp_new_nx in H; exact H|discriminate]);
     try (destruct (sp_take c st nx v k (match k with TPop => 0 | _ => idx end) KDrop) as [r0|] eqn:E0; [|discriminate];
          apply sp_take_nx in E0; injection H as <-; destruct (s_out r0 =? 0); cbn [s_nx s_out]; lia);
@@ -539,7 +550,10 @@ Definition ex_ops : list op :=
     ODrain Erased 9 BUnbounded BUnbounded [(true, KSkip); (true, KDown); (false, KSkip); (false, KDrop)] FinDrop;
     (* lazy clones as sources: one Clone per consumption, refused offers clone nothing *)
     OPush Erased 9 (SLazy 1 10 0); OInsert Typed 9 0 (SLazy 3 10 0); OInsert Erased 9 7 (SLazy 1 10 0); OPush Erased 9 (SLazy 1 10 5);
-    OPush Erased 8 (SLazy 1 10 0) ].
+    OPush Erased 8 (SLazy 1 10 0);
+    (* removal handles of another vector as sources *)
+    OPush Erased 10 (STemp 9 TPop 0); OInsert Erased 10 0 (STemp 9 TRemove 0); OInsert Erased 10 9 (STemp 9 TSwapRemove 0);
+    OPush Erased 10 (STemp 9 TPop 0); OPush Erased 8 (STemp 10 TRemove 1) ].
 
 Example ex_spec_defined : exists rs, spec_run ex_cfg [] 1 ex_ops = Some rs /\ length rs = length ex_ops.
 Proof. eexists. split; [vm_compute; reflexivity|reflexivity]. Qed.
@@ -565,6 +579,7 @@ Example ex_outcomes :
      (0,0,[]); (0,0,[]); (0,0,[]); (0,0,[]); (2,2,[]); (2,2,[]); (0,0,[1; 3; 0; 0; 0]); (0,0,[1; 3; 0; 0; 0]); (2,1,[]);
      (0,0,[36]); (2,1,[]); (0,0,[]); (2,1,[]); (0,0,[37]); (0,0,[40]);
      (0,0,[]); (0,0,[]); (0,0,[]); (0,0,[4; 1; 41; 2; 41; 1; 42; 0]);
+     (0,0,[]); (0,0,[]); (2,1,[]); (2,1,[]); (2,3,[]);
      (0,0,[]); (0,0,[]); (2,1,[]); (2,1,[]); (2,3,[])].
 Proof. vm_compute. reflexivity. Qed.
 
